@@ -368,3 +368,34 @@ func (c *Ctx) effective(f *core.Func) *core.Func {
 	}
 	return f
 }
+
+// globalLiteral returns the composite literal a package-level variable is
+// initialised with (nil if it has none).
+func (c *Ctx) globalLiteral(pkg string, v *types.Var) *ast.CompositeLit {
+	pk := c.P.Pkgs[pkg]
+	if pk == nil {
+		return nil
+	}
+	for _, f := range pk.Syntax {
+		for _, d := range f.Decls {
+			gd, ok := d.(*ast.GenDecl)
+			if !ok {
+				continue
+			}
+			for _, sp := range gd.Specs {
+				vs, ok := sp.(*ast.ValueSpec)
+				if !ok {
+					continue
+				}
+				for i, nm := range vs.Names {
+					if pk.TypesInfo.Defs[nm] == types.Object(v) && i < len(vs.Values) {
+						if cl, ok := ast.Unparen(vs.Values[i]).(*ast.CompositeLit); ok {
+							return cl
+						}
+					}
+				}
+			}
+		}
+	}
+	return nil
+}
